@@ -74,6 +74,14 @@ func Shard() (int, int) {
 	return 0, 1
 }
 
+// FirstShardOnly skips fixed (non-generated) sub-campaigns in all but the
+// first process of a sharded run, so that their counts are not multiplied.
+func FirstShardOnly(t *testing.T) {
+	if sh, _ := Shard(); sh != 0 {
+		t.Skip("fixed sub-campaign: runs in shard 0 only")
+	}
+}
+
 // Scale is a multiplier for case counts set by the driver (VERIF_SCALE, a
 // float; default 1). Used for self-tests of the machinery only.
 func scale() float64 {
